@@ -7,7 +7,8 @@ import Norad.Lemmas.JudgeFirst
 item is refused for a GIVEN reason is rejected.  Here the position and the reason are derived from `judge`'s own output:
 `judge_flagged_rejected` — a shaped document for which `judge` reports at least one rule, none of them a rule for which the
 theorem is known not to hold (`excludedDocRules`: the recorded findings, `dup-note`, the object-lib rules), and nothing
-unspecified, is rejected by the parser.  `glyph_start_rule_rejected` is the converse for the `glyph` start tag.
+unspecified, is rejected by the parser.  `glyph_start_rule_rejected` and `glyph_start_version_rejected` are the converse for the
+`glyph` start tag.
 -/
 namespace Glif
 open Spec
@@ -285,8 +286,8 @@ theorem gfold_name : ∀ (as : List Attr) (acc acc' : GlyphAcc), foldAttrs gStep
 /-- **the converse for the `glyph` start tag**: every rule `glyphAttrCheck` reports — the attributes are not well-formed
     (`attr-syntax`), `name` is missing or not a valid name (`glyph-name`), an attribute other than `name`, `format`,
     `formatMinor` (`unknown-attr`) — makes the parser reject the document at the start tag.
-    OPEN: the rule `version`.  It is not a theorem as it stands: `formatMinor="00"` (or `"+0"`) is `version` for `judge`
-    (the minor version must be spelled `0`) and read as 0 by the parser (`parse::<u32>`); such spellings are not generated. -/
+    The rule `version` is `glyph_start_version_rejected` below (after `docVersion` was taught that `formatMinor="00"` /
+    `"+0"` read as 0: unspecified, not `version`). -/
 theorem glyphAttrCheck_fails {d : Doc} (hne : glyphAttrCheck d ≠ []) : ∃ k, parseGlyphAttrs d.gattrs = .error k := by
     cases hga : d.gattrs with
     | none => exact ⟨_, rfl⟩
@@ -342,6 +343,179 @@ theorem glyph_start_rule_rejected {d : Doc} (hs : Shaped d) (hne : glyphAttrChec
   simp only [hs.glyphOpen, Bool.false_eq_true, if_false, List.append_assoc, List.cons_append]
   rw [scanStart_prolog _ _ hs.prolog]
   simp only [scanStart, if_true, hk, accepted]
+
+/-! ### the `version` rule of the start tag -/
+
+theorem gStep_major_other {acc acc' : GlyphAcc} {a : Attr} (hne : a.1 ≠ "format".toList) (hs : gStep acc a = some acc') :
+    acc'.major = acc.major := by
+  unfold gStep at hs; split at hs
+  · cases hs
+  · rename_i k hk
+    have := gKeyOf_eq hk
+    cases k <;> simp only [gApply] at hs <;> repeat' split at hs
+    all_goals first | (cases hs; done) | (cases hs; first | rfl | exact absurd this hne)
+
+theorem gStep_minor_other {acc acc' : GlyphAcc} {a : Attr} (hne : a.1 ≠ "formatMinor".toList) (hs : gStep acc a = some acc') :
+    acc'.minor = acc.minor := by
+  unfold gStep at hs; split at hs
+  · cases hs
+  · rename_i k hk
+    have := gKeyOf_eq hk
+    cases k <;> simp only [gApply] at hs <;> repeat' split at hs
+    all_goals first | (cases hs; done) | (cases hs; first | rfl | exact absurd this hne)
+
+theorem gStep_major_format {acc acc' : GlyphAcc} {v : Str} (hs : gStep acc ("format".toList, v) = some acc') :
+    parseU32 10 v = some acc'.major := by
+  have hk' : gKeyOf "format".toList = some .format := by decide
+  simp only [gStep, hk', gApply] at hs
+  split at hs
+  · rename_i n hn; cases hs; exact hn
+  · cases hs
+
+theorem gStep_minor_format {acc acc' : GlyphAcc} {v : Str} (hs : gStep acc ("formatMinor".toList, v) = some acc') :
+    parseU32 10 v = some acc'.minor := by
+  have hk' : gKeyOf "formatMinor".toList = some .formatMinor := by decide
+  simp only [gStep, hk', gApply] at hs
+  split at hs
+  · rename_i n hn; cases hs; exact hn
+  · cases hs
+
+/-- what the attribute loop of the `glyph` tag leaves in `major` / `minor`: the value `parse::<u32>` reads from the attribute,
+    0 when the attribute is absent -/
+theorem gfold_versions {as : List Attr} (hnd : (as.map (·.1)).Nodup) {acc : GlyphAcc} (hf : foldAttrs gStep {} as = some acc) :
+    (∀ v, Spec.get as "format" = some v → parseU32 10 v = some acc.major) ∧ (Spec.get as "format" = none → acc.major = 0) ∧
+    (∀ v, Spec.get as "formatMinor" = some v → parseU32 10 v = some acc.minor) ∧
+    (Spec.get as "formatMinor" = none → acc.minor = 0) := by
+  refine ⟨?_, ?_, ?_, ?_⟩
+  · intro v hv
+    have := (foldAttrs_value gStep (fun a => some a.major) "format".toList (parseU32 10 v) as
+      (fun acc a acc' hne hs => by simp only [gStep_major_other hne hs])
+      (fun acc a acc' ha hk hs => by
+        obtain ⟨a1, a2⟩ := a
+        simp only at hk; subst hk
+        have e := get_of_mem_nodup hnd ha
+        rw [hv] at e; cases e
+        exact (gStep_major_format hs).symm) {} acc hf).1 (List.mem_map.2 ⟨_, get_mem hv, rfl⟩)
+    exact this.symm
+  · intro hn
+    exact (foldAttrs_value gStep (fun a => a.major) "format".toList 0 as
+      (fun acc a acc' hne hs => gStep_major_other hne hs)
+      (fun acc a acc' ha hk hs => absurd (List.mem_map.2 ⟨a, ha, hk⟩) (not_mem_of_get_none hn)) {} acc hf).2 (not_mem_of_get_none hn)
+  · intro v hv
+    have := (foldAttrs_value gStep (fun a => some a.minor) "formatMinor".toList (parseU32 10 v) as
+      (fun acc a acc' hne hs => by simp only [gStep_minor_other hne hs])
+      (fun acc a acc' ha hk hs => by
+        obtain ⟨a1, a2⟩ := a
+        simp only at hk; subst hk
+        have e := get_of_mem_nodup hnd ha
+        rw [hv] at e; cases e
+        exact (gStep_minor_format hs).symm) {} acc hf).1 (List.mem_map.2 ⟨_, get_mem hv, rfl⟩)
+    exact this.symm
+  · intro hn
+    exact (foldAttrs_value gStep (fun a => a.minor) "formatMinor".toList 0 as
+      (fun acc a acc' hne hs => gStep_minor_other hne hs)
+      (fun acc a acc' ha hk hs => absurd (List.mem_map.2 ⟨a, ha, hk⟩) (not_mem_of_get_none hn)) {} acc hf).2 (not_mem_of_get_none hn)
+
+/-- a `format` the parser reads as 1 or 2 and a `formatMinor` that is absent or read as 0 is never `version` for `docVersion` -/
+theorem docVersion_of_read {d : Doc} {as : List Attr} (has : d.gattrs = some as) {f : Str} (hf : Spec.get as "format" = some f)
+    (hp : parseU32 10 f = some 1 ∨ parseU32 10 f = some 2)
+    (hm : ∀ m, Spec.get as "formatMinor" = some m → parseU32 10 m = some 0) : docVersion d ≠ (none, false) := by
+  intro h
+  unfold docVersion at h
+  simp only [has, hf] at h
+  cases hmm : Spec.get as "formatMinor" with
+  | none =>
+    simp only [hmm] at h
+    split at h
+    · simp at h
+    · simp at h
+    · rename_i heq; cases heq; rcases hp with hp | hp <;> simp [hp] at h
+    · rename_i hh; cases hh
+  | some m =>
+    have h0 := hm m hmm
+    simp only [hmm] at h
+    by_cases he : m = ['0']
+    · split at h
+      · simp [he] at h
+      · simp [he] at h
+      · rename_i heq; cases heq; rcases hp with hp | hp <;> simp [hp, he] at h
+      · rename_i hh; cases hh
+    · split at h
+      · simp [he, h0] at h
+      · simp [he, h0] at h
+      · rename_i heq; cases heq; rcases hp with hp | hp <;> simp [hp, he, h0] at h
+      · rename_i hh; cases hh
+
+theorem version_fails {d : Doc} (hnd : NodupAttrs d.gattrs) (hv : docVersion d = (none, false)) :
+    ∃ k, parseGlyphAttrs d.gattrs = .error k := by
+  cases hga : d.gattrs with
+  | none => exact ⟨_, rfl⟩
+  | some as =>
+    simp only [parseGlyphAttrs]
+    cases hf : foldAttrs gStep {} as with
+    | none => exact ⟨_, rfl⟩
+    | some acc =>
+      simp only []
+      obtain ⟨h1, h2, h3, h4⟩ := gfold_versions (hnd as hga) hf
+      have hbad : ¬ ((acc.major = 1 ∨ acc.major = 2) ∧ acc.minor = 0) := by
+        intro ⟨hmaj, hmin⟩
+        cases hgf : Spec.get as "format" with
+        | none => have := h2 hgf; omega
+        | some f =>
+          have hp := h1 f hgf
+          refine docVersion_of_read hga hgf ?_ ?_ hv
+          · rcases hmaj with e | e <;> rw [e] at hp
+            · exact .inl hp
+            · exact .inr hp
+          · intro m hm
+            have := h3 m hm
+            rw [hmin] at this
+            exact this
+      unfold gFinish
+      cases acc.name with
+      | none => exact ⟨_, rfl⟩
+      | some n =>
+        simp only []
+        by_cases c1 : acc.major = 1 ∧ acc.minor = 0
+        · exact absurd ⟨.inl c1.1, c1.2⟩ hbad
+        · by_cases c2 : acc.major = 2 ∧ acc.minor = 0
+          · exact absurd ⟨.inr c2.1, c2.2⟩ hbad
+          · exact ⟨.unsupportedVersion, by simp [c1, c2]⟩
+
+/-- **the `version` rule**: `docVersion d = (none, false)` is exactly the case in which `judge` reports `version` (no version
+    and not unspecified: `format` is missing or not read as 1 or 2, or `formatMinor` is not read as 0; the spellings `+2`,
+    `02`, `00`, `+0` that `parse::<u32>` reads as a supported version are classified as unspecified by `docVersion`, not as
+    `version`).  Then the parser rejects the document at the start tag. -/
+theorem glyph_start_version_rejected {d : Doc} (hs : Shaped d) (hv : docVersion d = (none, false)) :
+    accepted (parseGlif rd (Spec.flatten d)) = false := by
+  obtain ⟨k, hk⟩ := version_fails hs.gattrs hv
+  unfold parseGlif Spec.flatten
+  simp only [hs.glyphOpen, Bool.false_eq_true, if_false, List.append_assoc, List.cons_append]
+  rw [scanStart_prolog _ _ hs.prolog]
+  simp only [scanStart, if_true, hk, accepted]
+
+/-- in that case `judge` says `version` (and possibly rules of the start tag), nothing else -/
+theorem judge_version {d : Doc} (hv : docVersion d = (none, false)) :
+    judge rd d = (dedup (glyphAttrCheck d ++ ["version"]), false) := by
+  unfold judge
+  rw [hv]
+  rfl
+
+def jdMinor1 : Spec.Doc :=
+  { prolog := [.decl], gattrs := some [("name".toList, ['a']), ("format".toList, ['2']), ("formatMinor".toList, ['1'])], items := [adv1] }
+def jdMinor00 : Spec.Doc :=
+  { prolog := [.decl], gattrs := some [("name".toList, ['a']), ("format".toList, ['2']), ("formatMinor".toList, ['0', '0'])], items := [adv1] }
+
+/-- `formatMinor="1"`: `version`, rejected -/
+example : accepted (parseGlif R1 (Spec.flatten jdMinor1)) = false :=
+  glyph_start_version_rejected ⟨by decide, by intro as h; cases h; decide, rfl, by
+    intro it hit
+    simp only [jdMinor1, List.mem_cons, List.not_mem_nil, or_false] at hit
+    subst hit
+    exact ⟨by intro as h; cases h; decide, by decide⟩⟩ (by decide)
+
+/-- `formatMinor="00"`: unspecified, no `version` (the parser reads 0 and accepts) -/
+example : Spec.judge R1 jdMinor00 = ([], true) := by decide +kernel
 
 /-- a glyph without a name -/
 example : accepted (parseGlif R1 (Spec.flatten { prolog := [.decl], gattrs := some [("format".toList, ['2'])], items := [adv1] })) = false :=
